@@ -27,6 +27,7 @@ CLASS = {
     "rel.TupleBuilder.Finish": "O KF-pinned-panics: same assertions on the builder path",
     "rel.SetPattern.Bind": "O KF-pinned-panics: 'pattern type %T not supported yet' (asserted by the suite)",
     "rel.relationBuilder.Add": "O KF-relation-bucket: MustGet(name) when two name lists share one bucket key; v.(Tuple) guarded by the bucket",
+    "rel.toUnionSetWithItem": "O KF-relation-bucket: reached by Relation.With/Union when the value's bucket key equals the relation's (modelled: withSet, unionSets)",
     "rel.Closure.Count": "F", "rel.Closure.Has": "F", "rel.Closure.Enumerator": "F", "rel.Closure.With": "F",
     "rel.Closure.Without": "F", "rel.Closure.Map": "F", "rel.Closure.Where": "F", "rel.Closure.ArrayEnumerator": "F",
     "rel.Closure.CallAll": "G nullary-vs-unary mismatch cannot be produced by the compiler",
@@ -56,6 +57,38 @@ CLASS = {
     "rel.StringCharTupleExpr.Eval": "U (repaired)", "rel.NewRelationExpr": "U e.(XTupleExpr) guarded by the counters",
     "syntax.subset": "U (repaired)", "syntax.subsetOrEqual": "U (repaired)", "syntax.<init>": "U compareOps/binops tables",
 }
+# ordered (regex, classification) rules for the functions not named in CLASS
+import re as _re
+RULES = [
+    (r"^rel\.ExprClosure\.", "F"),
+    (r"^rel\.AST", "O KF-grammar-parse"),
+    (r"^rel\.(\w+\.)?Less$|^rel\.valuesLess$|^rel\.rankerSlice\.Less$",
+     "G the kinds are compared before the operand is asserted (ordering laws: C06); repaired sites of C06 included"),
+    (r"^rel\.\w*Tuple\.MustGet$|^rel\.Scope\.MustGet$", "G Must* accessor: callers pass names they read from the same tuple/scope; open only through relationBuilder.Add"),
+    (r"^rel\.(positionalRelation|Relation|valueProjector|positionalRelationValuesEnumerator)\.|^rel\.(Joiner|GenericJoin|joinOneSide|createMode|mapIndices|Reduce)$",
+     "G relation internals (C04): all rows of a relation have the heading's width, join modes are a closed enumeration, Reduce's slots are sets it made itself"),
+    (r"^rel\.(jsonEscape|jsonEscapeExpr|MarshalToJSON|reflectNewValue)$", "X wire format / Go embedders (C13)"),
+    (r"^rel\.New(Max|Min|Mean|Median|Sum)Expr$|^rel\.ReduceExpr\.Eval$|^rel\.float64Heap\.", "G acc.(Agg)/(Value): the accumulator was produced by the same closure one step earlier"),
+    (r"^rel\.(Unnest|nestWithFunc|SingleAttrNest)$", "G (repaired by C04: the nest/unnest expressions validate attributes and member kinds first)"),
+    (r"^rel\.Rank$", "G (repaired: every ranker tuple has the names of the first before MustGet)"),
+    (r"^rel\.(String|Bytes)\.IsTrue$", "G the constructors return None for an empty string/byte array"),
+    (r"^rel\.(String|Bytes|Array)\.(Map|Where|ArrayEnumerator)$", "G x.Enumerator().(*concreteEnumerator): the method's own enumerator type"),
+    (r"^rel\.UnionSet\.|^rel\.(newSetFromBuckets|unionSetBucketRange\.subset|Union|Intersect|Difference|PowerSet)$",
+     "G buckets of a UnionSet hold Sets by construction; Where callbacks of Intersect/Difference never return an error"),
+    (r"^rel\.(emptyEnumerator\.|GenericSet\.Any$|Names\.TheOne$|intSet$|registerKind$|CanonicalSet$|genericSetValueEnumerator\.|GenericSet\.ArrayEnumerator$)",
+     "G internal invariants (non-empty set, one name, unique kind numbers, array-shaped generic set)"),
+    (r"^rel\.(MustNewSet|MustNewDict|mustCallAll|EmptySet\.With|TrueSet\.With)$", "G Must* wrapper around NewSet/NewDict on values it built itself; NewSet fails only in relationBuilder.Add (open)"),
+    (r"^rel\.(dictEnumerator|DictEnumerator)\.MoveNext$|^rel\.Dict\.(With|Where|OrderedEntries)$|^rel\.NewDict$",
+     "G entry.(Value): a map entry is a Value or multipleValues, the latter handled by the case above"),
+    (r"^rel\.DictPattern\.Bind$|^rel\.NewDictPattern$|^rel\.NewSetPattern$|^rel\.ExprsPattern\.String$|^rel\.NewSafeTailExpr$",
+     "G pattern internals: keys were inserted as Values; duplicates are reported by the compiler before the constructor (repaired)"),
+    (r"^rel\.(GenericTuple\.With|MergeTuples|TupleExpr\.Eval|GenericTuple\.Format)$", "G t.Without(..).(*GenericTuple): Without of a *GenericTuple returns one"),
+    (r"^rel\.(RecursionExpr\.Eval|ExprAsFunction|DynIdentExpr\.Eval|Scope\.String)$", "G NewFunction(...).(*Function) and scope entries inserted as Exprs"),
+    (r"^syntax\.std|^syntax\.(createNestedFunc|mustCreateNestedFunc|createNestedFuncAttr|createFunc\d|mustParse|newFloatFuncAttr|SafeStdScopeTuple|StdScope|FixFuncs)",
+     "X standard library (fuzzed: stream lib / lib-ext)"),
+    (r"^syntax\.ParseContext\.|^syntax\.(parseNames|parseName|parseNest|which|delimsScanner|dotUnary|MustCompile|Compile)",
+     "X compiler: assertions on AST shapes that the grammar guarantees (fuzzed: stream mut/raw; seven of them were reachable and are repaired)"),
+]
 PKG_DEFAULT = {
     "rel": "G", "syntax": "X", "engine": "X", "translate": "X", "tools": "X", "cmd/arrai": "X",
 }
@@ -64,6 +97,9 @@ PKG_DEFAULT = {
 def classify(name):
     if name in CLASS:
         return CLASS[name]
+    for rx, c in RULES:
+        if _re.search(rx, name):
+            return c
     pkg = name.split(".")[0]
     for k, v in PKG_DEFAULT.items():
         if pkg == k or pkg.startswith(k + "/"):
